@@ -107,8 +107,16 @@ def r14_2(ctx):
     prog = ctx.prog
     f = prog.own_method("OptiWrapper", "variable")
     rets = [r for r in walk_no_nested(f.node) if isinstance(r, ast.Return) and r.value is not None]
-    main = [r for r in rets if not is_call_to(r.value, "MX")]
+    main = [r for r in rets if not is_call_to(r.value, "MX") and "scale" in [x.id for x in ast.walk(r.value) if isinstance(x, ast.Name)]]
     ok = len(main) == 1
+    # a discrete (integer / binary) variable keeps its own values: scale*v would make the physical quantity range over multiples of the scale
+    sc0 = ctx.scope(f)
+    dom = f.params[4] if len(f.params) > 4 else "domain"
+    for r in main:
+        gs = [(ast.unparse(t).replace(" ", "").replace('"', "'"), p_) for t, p_ in sc0.path_guards(r)]
+        real_only = ("%s=='real'" % dom, True) in gs or ("%s!='real'" % dom, False) in gs
+        ctx.check(real_only, "OptiWrapper.variable scales real-valued variables only", detail="a variable with a discrete domain is scaled: the physical quantity is restricted to multiples of the scale instead of the integers (feasible set changes)",
+                  expected="return scale*v only when domain == 'real' (a discrete variable is returned unscaled, or the combination is rejected)", found=str(gs), fi=f, node=r, sample={"guards": str(gs)})
     if ok:
         sc = ctx.scope(f)
         p = Norm(None).poly(main[0].value)
